@@ -79,3 +79,33 @@ PROPS["C02"] = {
         ],
     },
 }
+
+PROPS["C07"] = {
+    "pkg": "c07", "level": "exploration",
+    "technique": "exhaustive enumeration (memoised DFS) of delivery interleavings of harness-defined toy protocols through the real handlers, plus property-based "
+                 "schedule generation (rapid) for toy/xor/FROST/Doerner/CMP with reordering, duplicates, early and stale arrivals and injected foreign-session traffic; "
+                 "oracle = every party completes with the same result bytes as the in-order run under identical per-party randomness",
+    "level_text": "For two parties and every round pattern of length <= 3 over {broadcast, p2p, both}, and for three parties with one message round, ALL interleavings are "
+                  "enumerated (modulo commuting deliveries to different parties: a party's behaviour depends only on its own delivery order); for three parties and longer "
+                  "patterns every delivery order at one party is enumerated. Real protocols are sampled. Each execution must complete everywhere and reproduce the in-order result.",
+    "level_note": "Party randomness is fixed through per-party deterministic crypto/rand tapes, so result equality is meaningful. The quotient by commuting deliveries relies on "
+                  "handlers of different parties sharing no state (they are separate objects). Foreign/stale messages follow the README loop (dropped when CanAccept is false).",
+    "rule": "case = one executed schedule; class = (protocol/pattern, n, set of deviation kinds observed in the per-party delivery logs: later-round-first, p2p-before-broadcast, "
+            "duplicate, stale, rejected-by-canaccept, foreign kind); non-trivial iff the set is non-empty. Exhaustive spaces contribute one case per distinct complete "
+            "per-party-order class (counters.exhaustive_complete_interleaving_classes) and are listed under exhaustive_subspaces",
+    "assumptions": ["authenticated, eventually reliable channels", "handlers of different parties share no state"],
+    "tiers": {
+        "quick": [
+            {"run": "^TestToyExhaustive$", "shards": 8},
+            {"run": "^TestToyRandom$", "checks": 4000, "shards": 3},
+            {"run": "^TestFrostDoerner$", "checks": 600, "shards": 4},
+            {"run": "^TestCMP$", "checks": 16, "shards": 16, "timeout": 1500},
+        ],
+        "thorough": [
+            {"run": "^TestToyExhaustive$", "shards": 16, "timeout": 7000},
+            {"run": "^TestToyRandom$", "checks": 150000, "shards": 4},
+            {"run": "^TestFrostDoerner$", "checks": 20000, "shards": 6},
+            {"run": "^TestCMP$", "checks": 320, "shards": 16, "timeout": 9000},
+        ],
+    },
+}
